@@ -202,7 +202,13 @@ Plane3<T>::intersect (const Line3<T>& line, Vec3<T>& point) const IMATH_NOEXCEPT
 {
     T d = normal ^ line.dir;
     if (d == 0.0) return false;
-    T t   = -((normal ^ line.pos) - distance) / d;
+    T n = (normal ^ line.pos) - distance;
+    // a line so nearly parallel that the parameter is not representable
+    // does not intersect the plane at any point we could return
+    if (!(std::abs (d) > 1 ||
+          std::abs (n) < std::numeric_limits<T>::max () * std::abs (d)))
+        return false;
+    T t   = -n / d;
     point = line (t);
     return true;
 }
@@ -213,7 +219,11 @@ Plane3<T>::intersectT (const Line3<T>& line, T& t) const IMATH_NOEXCEPT
 {
     T d = normal ^ line.dir;
     if (d == 0.0) return false;
-    t = -((normal ^ line.pos) - distance) / d;
+    T n = (normal ^ line.pos) - distance;
+    if (!(std::abs (d) > 1 ||
+          std::abs (n) < std::numeric_limits<T>::max () * std::abs (d)))
+        return false;
+    t = -n / d;
     return true;
 }
 
